@@ -659,7 +659,21 @@ func genStack(rng *hx.Rng, kind string) string {
 // `gs add|del|apply|replace <i> …` writes base set i; the answer lists the derived nodes.  The Lean driver runs the same
 // history on the graph model (Hive/Model/DerivedGraph.lean: gStep with every report delivered after each request).
 type gsWorld struct {
-	nodes []*setNode
+	nodes  []*setNode
+	baseIn []int          // the sources the top node was built with
+	extra  map[int]func() // unsubscribe functions of the sources the top DerivedSet inherited later (`gs inherit j`)
+}
+
+// topIn: the current sources of the top node.
+func (w *gsWorld) topIn() []int {
+	in := append([]int{}, w.baseIn...)
+	for j := 0; j < len(w.nodes); j++ {
+		if w.extra[j] != nil {
+			in = append(in, j)
+		}
+	}
+
+	return in
 }
 
 func (w *gsWorld) exec(r failer, f []string) string {
@@ -676,6 +690,26 @@ func (w *gsWorld) exec(r failer, f []string) string {
 		for _, spec := range specs {
 			w.nodes = append(w.nodes, buildStackNode(w.nodes, spec))
 		}
+		w.baseIn, w.extra = specs[len(specs)-1].in, map[int]func(){}
+	case "inherit", "unsub": // the DerivedSet at the top inherits from one more node / unsubscribes from it again
+		top := len(w.nodes) - 1
+		if w.nodes == nil || w.nodes[top].kind != "dset" || atoi(f[1]) >= top {
+			return "bad-op"
+		}
+		j := atoi(f[1])
+		if f[0] == "inherit" {
+			if w.extra[j] != nil {
+				return "bad-op"
+			}
+			w.extra[j] = w.nodes[top].set.(reactive.DerivedSet[int]).InheritFrom(w.nodes[j].set)
+		} else {
+			if w.extra[j] == nil {
+				return "bad-op"
+			}
+			w.extra[j]()
+			w.extra[j] = nil
+		}
+		w.nodes[top].in = w.topIn()
 	case "add", "del", "apply", "replace":
 		if w.nodes == nil || atoi(f[1]) > 2 {
 			return "bad-op"
@@ -709,18 +743,37 @@ func showSetLike(xs []int) string {
 }
 
 func genGS(rng *hx.Rng, n int) []string {
-	ops := []string{fmt.Sprintf("gs new %s %s %s %s", hx.Pick(rng, stackShapeNames), joinInts(randomSubset(rng)), joinInts(randomSubset(rng)), joinInts(randomSubset(rng)))}
+	shape := hx.Pick(rng, stackShapeNames)
+	ops := []string{fmt.Sprintf("gs new %s %s %s %s", shape, joinInts(randomSubset(rng)), joinInts(randomSubset(rng)), joinInts(randomSubset(rng)))}
+	inherited := map[int]bool{}
 	for len(ops) < n {
 		i := rng.Intn(3)
 		switch x := rng.Intn(100); {
-		case x < 40:
+		case x < 38:
 			ops = append(ops, fmt.Sprintf("gs add %d %d", i, rng.Range(1, 5)))
-		case x < 75:
+		case x < 70:
 			ops = append(ops, fmt.Sprintf("gs del %d %d", i, rng.Range(1, 5)))
-		case x < 90:
+		case x < 82:
 			ops = append(ops, fmt.Sprintf("gs replace %d %s", i, joinInts(randomSubset(rng))))
-		default:
+		case x < 90 || !strings.HasPrefix(shape, "ds-"):
 			ops = append(ops, fmt.Sprintf("gs apply %d %s %s", i, joinInts(randomSubset(rng)), joinInts(randomSubset(rng))))
+		default: // the top node is a DerivedSet: structural change
+			var on []int
+			for j := 0; j < 2+len(stackShapes[shape]); j++ {
+				if inherited[j] {
+					on = append(on, j)
+				}
+			}
+			j := rng.Intn(2 + len(stackShapes[shape]))
+			if len(on) > 0 && rng.Bool() {
+				j = hx.Pick(rng, on)
+			}
+			if inherited[j] {
+				ops = append(ops, fmt.Sprintf("gs unsub %d", j))
+			} else {
+				ops = append(ops, fmt.Sprintf("gs inherit %d", j))
+			}
+			inherited[j] = !inherited[j]
 		}
 	}
 
